@@ -198,10 +198,19 @@ func compare19(c *core.Ctx, m mode19, mk func() op19, mkSplit splitOp, what stri
 	var problems []string
 	add := func(f string, a ...interface{}) { problems = append(problems, fmt.Sprintf(f, a...)) }
 
+	// the handles everything below is derived from: the root handles, or (m.tx) transactions begun on them (rolled
+	// back after the real run)
+	base, basecfg := h19.DB, h19cfg.DB
+	if m.tx {
+		base, basecfg = h19.DB.Begin(), h19cfg.DB.Begin()
+		if base.Error != nil || basecfg.Error != nil {
+			panic(fmt.Sprintf("Begin: %v %v", base.Error, basecfg.Error))
+		}
+	}
 	// (a) session-level DryRun on the very handle that runs it for real afterwards
 	h19.Clock.Reset()
 	mark := h19.Rec.Mark()
-	dry, desc := mk()(m.derive(h19.DB).Session(&gorm.Session{DryRun: true}))
+	dry, desc := mk()(m.derive(base).Session(&gorm.Session{DryRun: true}))
 	if m.desc != "" && m.desc != "h" {
 		desc += "   [db = " + m.desc + "]"
 	}
@@ -214,11 +223,13 @@ func compare19(c *core.Ctx, m mode19, mk func() op19, mkSplit splitOp, what stri
 	{
 		h19.Clock.Reset()
 		marks := h19.Rec.Mark()
-		drys, _ := mk()(m.derive(h19.DB).Scopes(func(d *gorm.DB) *gorm.DB { return d.Session(&gorm.Session{DryRun: true}) }).Session(&gorm.Session{}))
+		drys, _ := mk()(m.derive(base).Scopes(func(d *gorm.DB) *gorm.DB { return d.Session(&gorm.Session{DryRun: true}) }).Session(&gorm.Session{}))
 		if se := stmtEvents(h19.Rec.Since(marks)); len(se) > 0 {
 			add("Scopes(-> Session{DryRun}): %d statement events reached the driver, first: %s", len(se), se[0].String())
-			if _, err := h19.SQL.Exec(seed19); err != nil {
-				panic(err)
+			if !m.tx {
+				if _, err := h19.SQL.Exec(seed19); err != nil {
+					panic(err)
+				}
 			}
 		} else if rowOnly := isRowOnly19(what); drys.sql != dry.sql && !dry.noMain && !rowOnly {
 			// (Row() hands back no handle: what the harness reads is the chain value it called Row() on, which is not the
@@ -228,10 +239,29 @@ func compare19(c *core.Ctx, m mode19, mk func() op19, mkSplit splitOp, what stri
 			add("DryRun through a scope that returns Session{DryRun} exposes other bound values:\n  scope  : [%s]\n  session: [%s]", a, b)
 		}
 	}
+	// (a'') DryRun switched on by a session derived from a chain value that already carries part of the chain
+	if mkSplit != nil {
+		h19.Clock.Reset()
+		marks := h19.Rec.Mark()
+		recv, rest := mkSplit(m.derive(base).Session(&gorm.Session{}))
+		o := rest(recv.Session(&gorm.Session{DryRun: true}))
+		if se := stmtEvents(h19.Rec.Since(marks)); len(se) > 0 {
+			add("Session{DryRun} derived in the middle of the chain: %d statement events reached the driver, first: %s", len(se), se[0].String())
+			if !m.tx {
+				if _, err := h19.SQL.Exec(seed19); err != nil {
+					panic(err)
+				}
+			}
+		} else if o.sql != dry.sql {
+			add("Session{DryRun} derived from a chain value that already carries part of the chain exposes a different statement:\n  mid-chain: %s\n  up front : %s", o.sql, dry.sql)
+		} else if d := diffVars19(o.vars, dry.vars); d != "" {
+			add("Session{DryRun} derived from a chain value that already carries part of the chain binds other values: %s", d)
+		}
+	}
 	// (b) config-level DryRun
 	h19cfg.Clock.Reset()
 	markc := h19cfg.Rec.Mark()
-	dryc, _ := mk()(m.derive(h19cfg.DB.Session(&gorm.Session{})))
+	dryc, _ := mk()(m.derive(basecfg.Session(&gorm.Session{})))
 	if se := stmtEvents(h19cfg.Rec.Since(markc)); len(se) > 0 {
 		add("Config.DryRun: %d statement events reached the driver, first: %s", len(se), se[0].String())
 	}
@@ -240,7 +270,7 @@ func compare19(c *core.Ctx, m mode19, mk func() op19, mkSplit splitOp, what stri
 	markt := h19.Rec.Mark()
 	var tosqlVars []interface{}
 	var tosqlSQL string
-	explained := m.derive(h19.DB).ToSQL(func(tx *gorm.DB) *gorm.DB {
+	explained := m.derive(base).ToSQL(func(tx *gorm.DB) *gorm.DB {
 		o, _ := mk()(tx)
 		tosqlSQL, tosqlVars = o.sql, o.vars
 		return o.res
@@ -250,7 +280,7 @@ func compare19(c *core.Ctx, m mode19, mk func() op19, mkSplit splitOp, what stri
 		h19.Clock.Reset()
 		marks := h19.Rec.Mark()
 		var splitSQL string
-		recv, rest := mkSplit(m.derive(h19.DB).Session(&gorm.Session{}))
+		recv, rest := mkSplit(m.derive(base).Session(&gorm.Session{}))
 		explainedSplit := recv.ToSQL(func(tx *gorm.DB) *gorm.DB {
 			o := rest(tx)
 			splitSQL = o.sql
@@ -273,7 +303,7 @@ func compare19(c *core.Ctx, m mode19, mk func() op19, mkSplit splitOp, what stri
 		h19.Clock.Reset()
 		markd := h19.Rec.Mark()
 		var sqlD string
-		m.derive(h19.DB).Session(&gorm.Session{DryRun: true}).ToSQL(func(tx *gorm.DB) *gorm.DB {
+		m.derive(base).Session(&gorm.Session{DryRun: true}).ToSQL(func(tx *gorm.DB) *gorm.DB {
 			o, _ := mk()(tx)
 			sqlD = o.sql
 			return o.res
@@ -284,7 +314,7 @@ func compare19(c *core.Ctx, m mode19, mk func() op19, mkSplit splitOp, what stri
 		h19cfg.Clock.Reset()
 		markd = h19cfg.Rec.Mark()
 		var sqlC string
-		m.derive(h19cfg.DB).ToSQL(func(tx *gorm.DB) *gorm.DB {
+		m.derive(basecfg).ToSQL(func(tx *gorm.DB) *gorm.DB {
 			o, _ := mk()(tx)
 			sqlC = o.sql
 			return o.res
@@ -299,13 +329,26 @@ func compare19(c *core.Ctx, m mode19, mk func() op19, mkSplit splitOp, what stri
 	// (d) for real
 	h19.Clock.Reset()
 	markr := h19.Rec.Mark()
-	realOut, _ := mk()(m.derive(h19.DB).Session(&gorm.Session{}))
+	realOut, _ := mk()(m.derive(base).Session(&gorm.Session{}))
 	realEvents := stmtEvents(h19.Rec.Since(markr))
+	if m.tx {
+		base.Rollback()
+		basecfg.Rollback()
+	}
 	if _, err := h19.SQL.Exec(seed19); err != nil {
 		panic(err)
 	}
 	c.Inc("ops")
 	c.Inc("op_" + what)
+	if m.tx {
+		c.Inc("ops_on_transaction_handles")
+	}
+	if m.prep {
+		c.Inc("ops_on_prepared_statement_handles")
+	}
+	if m.ctx != nil {
+		c.Inc("ops_on_handles_with_a_context_value")
+	}
 	if dry.sql != dryc.sql {
 		add("Session{DryRun} and Config.DryRun expose different SQL:\n  %s\n  %s", dry.sql, dryc.sql)
 	} else if d := diffVars19(dryc.vars, dry.vars); d != "" && !dry.noMain {
@@ -370,9 +413,6 @@ func compare19(c *core.Ctx, m mode19, mk func() op19, mkSplit splitOp, what stri
 	if len(problems) > 0 {
 		c.Violation(what, map[string]interface{}{"chain": desc, "problems": problems, "dry_sql": dry.sql, "dry_vars": renderVars19(dry.vars)})
 		return
-	}
-	if !(len(realEvents) > 0 && !dry.noMain && dry.sql != "") && !dry.noMain {
-		c.Inc("DEBUGnotcompared_" + what + fmt.Sprintf("_ev%d_sql%v_err%v_rerr%v", len(realEvents), dry.sql != "", dry.err, realOut.err))
 	}
 	if len(realEvents) > 0 && !dry.noMain && dry.sql != "" {
 		c.Shape(what, strings.Fields(dry.sql)[0], len(dry.vars), len(realEvents), shapeOfSQL(dry.sql))
@@ -714,19 +754,28 @@ func run19(c *core.Ctx) {
 var EngineC19 = &core.Engine{
 	ID:    "C19",
 	Level: "exploration",
-	Rule: "the chains and 25 finishers of C01 (raw/named/map/struct/clause/grouped conditions, sub-queries, Select/Joins/Having/Order expressions, creates from struct/slice/map/[]map, upserts, Save, Raw/Exec) on the real columns of a seeded SQLite table, plus Row() finishers, a sub-query handle used by two statements, 11 soft-delete operations and 10 writes of a model that tracks its times as unix numbers (seconds, milli, nano, unsigned), each executed four times from identical handles and logical clocks: Session{DryRun}, Config.DryRun, ToSQL, and for real behind the recording driver; " +
-		"distinct = (finisher, SQL verb, number of bound values, number of real statements); non-trivial = the real run sent at least one statement that was compared with the dry run's SQL and bound values",
+	Rule: "the chains and 25 finishers of C01 (raw/named/map/struct/clause/grouped conditions, sub-queries, Select/Joins/Having/Order expressions, creates from struct/slice/map/[]map, upserts, Save, Raw/Exec) on the real columns of a seeded SQLite table, plus Row() finishers, a sub-query handle used by two statements, 11 soft-delete operations, 10 writes of a model that tracks its times as unix numbers (seconds, milli, nano, unsigned), " +
+		"18 operations of a multi-tenant model whose statement depends on the context of the handle (Before* hooks reading Statement.Context, a scope reading it, a gorm.Valuer as condition / assigned / map value, a field type with GormValue, a serializer using its ctx), " +
+		"16 finishers entered with the statement text already there (Raw(text).Create/Find/First/Take/Scan/Pluck/Count/Update/Updates/UpdateColumn/Delete/Row/Rows, or a plugin callback in front of the executor that writes Statement.SQL), and the second use (14 finishers) of the value a dry run (9 finishers) returned; " +
+		"each executed from identically derived handles and logical clocks: Session{DryRun}, a scope returning Session{DryRun}, Session{DryRun} derived mid-chain, Config.DryRun, ToSQL (on the handle, on a chain value carrying part of the chain, on handles that already run dry), and for real behind the recording driver; " +
+		"the handles are the root handle or (drawn per operation) h.WithContext(ctx) / h.Session(&Session{Context: ctx}) with a value in ctx (1/4 of all operations, 7/8 of the context-dependent ones, where the operation may also derive the context handle itself), h.Session(&Session{PrepareStmt: true}) (1/8), a transaction h.Begin() rolled back afterwards (1/8), and their combinations; " +
+		"distinct = (finisher, SQL verb, number of bound values, number of real statements, clause skeleton); non-trivial = the real run sent at least one statement that was compared with the dry run's SQL and bound values",
 	Assumptions: []string{
-		"the main statement of an operation is the first prepare/exec/query event of the real run (records carry no nested association values)",
-		"bound values are compared after database/sql's own conversion (driver.DefaultParameterConverter), times with Equal",
+		"the main statement of an operation is the first prepare/exec/query event of the real run (records carry no nested association values); on a PrepareStmt handle the text is the prepared one and the values are those of the execution that follows the prepare (text only when the database rejects the prepare); for FirstOrCreate/FirstOrInit on the not-found path and the count-then-page pair it is the last one",
+		"bound values are compared after database/sql's own conversion (driver.DefaultParameterConverter), times with Equal; values of two dry runs of one operation are compared the same way",
 		"statements SQLite rejects (unknown function FIELD, derived-table writes) are still compared: the recording driver logs text and values before executing",
-		"a write in DryRun may open and commit an empty transaction; ToSQL must make no driver call at all",
+		"a write in DryRun may open and commit an empty transaction; ToSQL must make no driver call at all (also on a transaction handle, a PrepareStmt handle, a handle with a context)",
+		"contexts are live and carry one value; cancelled or expired contexts are not generated (what a dry run does under a dead context is not fixed by the statement)",
+		"going on with the value a finisher returned is not a reusable handle: for the second use of a dry run's result only 'no statement reaches the driver' is demanded, not what it exposes; the real run executes the first operation only",
+		"operations whose statement text is given beforehand (Raw + finisher, statement-writing plugin) are compared as they are: the given text and values are what the real run sends; hooks that run statements of their own are not generated",
+		"the statement-writing plugin is registered on a separate pair of handles (registering re-sorts the callback chains), all other operations run on untouched chains",
 	},
 	Cases: func(tier string) int {
+		// 10 operations per case (the same number of operations as the 8-per-case workload had with 20000 / 300000)
 		if tier == "thorough" {
-			return 300000
+			return 240000
 		}
-		return 20000
+		return 16000
 	},
 	Batch:         func(string) int { return 128 },
 	Run:           run19,
